@@ -95,11 +95,17 @@ def crender(node, style, col, ic, N=0):
         out = [pad(col) + "switch (a) {"] if style != "allman" else [pad(col) + "switch (a)", pad(bc) + "{"]
         for lab, body in node[1]:
             out.append(pad(bc) + lab)
+            prev_kind = None
             for x in body:
                 if x[0] == "block":
                     out += crender(x, style, bc, ic, N)
+                elif x[0] == "break" and prev_kind == "block":
+                    # a 'break' that directly follows the closing brace of a case block lines up with that brace
+                    # (indent.cpp, issues #663 / #1366: deliberate)
+                    out += crender(x, style, bc, ic, N)
                 else:
                     out += crender(x, style, bc + ic, ic, N)
+                prev_kind = x[0]
         return out + [pad(bc) + "}"]
     raise ValueError(k)
 
@@ -190,7 +196,9 @@ def job(j):
         for name, node, style, var, lines, cm in pack:
             res["funcs"] += 1
             body = canon(node, style, ic, java, int(st.get("indent_brace", "0")))
-            if cm is not None:
+            if isinstance(cm, tuple):
+                body = body[:cm[1]] + ["/* c */"] + body[cm[1]:]         # column-1 comment keeps column 1
+            elif cm is not None:
                 # the comment sits in front of body line cm, at that line's column
                 tgt = body[cm]
                 body = body[:cm] + [tgt[:len(tgt) - len(tgt.lstrip())] + "/* c */"] + body[cm:]
@@ -200,16 +208,28 @@ def job(j):
                 have.pop()
             if java and have and have[-1].strip() == "}" and len(have) == len(want) + 1:
                 have.pop()     # the class's closing brace follows the last function
+            if closed and have != want and cm is not None and not isinstance(cm, tuple) and len(have) == len(want):
+                # a comment in front of the 'break' that follows a case block: the break lines up with the block's brace (deliberate
+                # special case), the comment is indented like an ordinary statement of the case - accept that column for the comment
+                k = next((i for i, (a, b) in enumerate(zip(have, want)) if a != b), None)
+                if k is not None and want[k].strip() == "/* c */" and k + 1 < len(want) and want[k + 1].strip() == "break;" \
+                        and want[k - 1].strip() == "}" and have[k].strip() == "/* c */" \
+                        and len(have[k]) - len(have[k].lstrip()) == len(want[k]) - len(want[k].lstrip()) + ic:
+                    have = have[:k] + [want[k]] + have[k + 1:]
             if closed and have != want:
                 bad = next((i for i, (a, b) in enumerate(zip(have, want)) if a != b), min(len(have), len(want)))
                 hl = have[bad] if bad < len(have) else "<missing>"
                 wl = want[bad] if bad < len(want) else "<missing>"
                 kind = "column" if hl.strip() == wl.strip() else "text"
+                # what the offending line is, and what surrounds it (descriptor for known findings)
+                def first_word(i):
+                    return (want[i].strip().split() or [""])[0].rstrip(";") if 0 <= i < len(want) else ""
+                ctxd = {"line": first_word(bad), "prev": first_word(bad - 1), "next": first_word(bad + 1)}
                 res["viol"].append(({"clause": "statement-not-at-the-column-of-its-nesting-depth" if kind == "column" else "line-structure-changed",
-                                     "lang": lang, "style": style, "variant": var.split(":")[0], "indent_with_tabs": st.get("indent_with_tabs", "1")},
+                                     "lang": lang, "style": style, "variant": var.split(":")[0], "indent_with_tabs": st.get("indent_with_tabs", "1"),
+                                     "line": ctxd["line"], "prev": ctxd["prev"], "next": ctxd["next"]},
                                     {"input": src, "output": r.out, "config.cfg": cfg, "lang": lang,
                                      "detail": "function %s (%s, %s): line %d is %r, expected %r\nshape: %s" % (name, style, var, bad + 1, hl, wl, cgen.render_one(node))}))
-                break
     return res
 
 
@@ -265,6 +285,9 @@ def variants_of(node, style, java, thorough2=False):
         for amt in (" ", "     ", "\t\t\t"):
             lines = base[:body_start + c] + [amt + "/* c */"] + base[body_start + c:]
             out.append(("comment:%d:%r" % (c, amt), lines, c))
+        # a comment in column 1 stays there (indent_col1_comment = false) - and must not drag the statement after it along
+        lines = base[:body_start + c] + ["/* c */"] + base[body_start + c:]
+        out.append(("comment1:%d" % c, lines, ("col1", c)))
     return out
 
 
@@ -296,7 +319,7 @@ def check(ctx):
                 if not quick and len(cgen.render_one(node)) > 120:
                     pass
                 for var, lines, cm in vs:
-                    if quick and lang != "C" and not var.startswith(("uniform", "comment")):
+                    if quick and lang != "C" and not var.startswith(("uniform", "comment:")):
                         continue
                     nm = "t%d" % nfun; nfun += 1
                     items.append((nm, node, style, var, [l.replace("@", nm) for l in lines], cm))
